@@ -16,6 +16,32 @@ sys.path.insert(0, os.path.dirname(os.path.abspath(__file__)))
 from rsscan import Source, ScanError  # noqa: E402
 
 
+def _strip_comments(t):
+    """drop // and /* */ comments (outside string / char literals) so that the digest of an outlined expression
+    does not depend on comments"""
+    out = []
+    i, n = 0, len(t)
+    while i < n:
+        c = t[i]
+        if c == '"':
+            j = i + 1
+            while j < n and t[j] != '"':
+                j += 2 if t[j] == '\\' else 1
+            out.append(t[i:j + 1]); i = j + 1
+        elif c == "'" and i + 2 < n and (t[i + 2] == "'" or (t[i + 1] == '\\' and i + 3 < n and t[i + 3] == "'")):
+            k = i + 3 if t[i + 2] == "'" else i + 4
+            out.append(t[i:k]); i = k
+        elif t.startswith('//', i):
+            j = t.find('\n', i)
+            i = n if j < 0 else j
+        elif t.startswith('/*', i):
+            j = t.find('*/', i + 2)
+            i = n if j < 0 else j + 2
+        else:
+            out.append(c); i += 1
+    return ''.join(out)
+
+
 class Lost(Exception):
     """An anchor (file, item, function, loop ordinal, text) was not found."""
 
@@ -329,7 +355,7 @@ class Unit:
             b_ = m2.end()
             otext = text[a_:b_]
             # the assumed contract is tied to the exact expression: a changed text (modulo white space) is a lost anchor
-            digest = hashlib.sha1(' '.join(otext.split()).encode('utf-8')).hexdigest()[:12]
+            digest = hashlib.sha1(' '.join(_strip_comments(otext).split()).encode('utf-8')).hexdigest()[:12]
             if digest != osha:
                 raise Lost('fn %s: outline %s: the outlined expression changed (sha %s, template pins %s); its assumed '
                            'contract no longer applies' % (name, oname, digest, osha))
